@@ -24,6 +24,7 @@ const (
 	KWr
 	KBlock
 	KReturn
+	KMark      // translator-internal, no semantics: a select arm (Sel, Arm) or a channel send (Label); removed before output
 	KCallParam // translator-internal: invocation of a func-typed parameter, resolved when the function is inlined
 )
 
@@ -42,13 +43,14 @@ func (r Ref) Text() string {
 }
 
 type Stmt struct {
-	K     Kind
-	A, B  *Stmt       // Seq, Choice; Loop uses A
-	Ref   Ref         // Acq, Rel, Rd, Wr
-	Label string      // mutex label (Acq/Rel), field label (Rd/Wr), channel text (Block)
-	Ex    bool        // Acq: exclusive
-	Param interface{} // KCallParam: the parameter (types.Object)
-	Pos   token.Position
+	K        Kind
+	A, B     *Stmt       // Seq, Choice; Loop uses A
+	Ref      Ref         // Acq, Rel, Rd, Wr
+	Label    string      // mutex label (Acq/Rel), field label (Rd/Wr), channel text (Block)
+	Ex       bool        // Acq: exclusive
+	Param    interface{} // KCallParam: the parameter (types.Object)
+	Sel, Arm int         // KMark of a select arm
+	Pos      token.Position
 }
 
 func skip() *Stmt { return &Stmt{K: KSkip} }
@@ -98,7 +100,7 @@ func loop(b *Stmt) *Stmt {
 
 func (s *Stmt) trivial() bool {
 	switch s.K {
-	case KSkip, KReturn:
+	case KSkip, KReturn, KMark:
 		return true
 	case KSeq, KChoice:
 		return s.A.trivial() && s.B.trivial()
@@ -106,6 +108,23 @@ func (s *Stmt) trivial() bool {
 		return s.A.trivial()
 	}
 	return false
+}
+
+// onlyPseudo: apart from control, the statement consists of pseudo-field writes emitted by the translator's own
+// rules (publication, buffers, connection writers), which say nothing about call order
+func (s *Stmt) onlyPseudo() bool {
+	ok := true
+	s.walk(func(x *Stmt) {
+		switch x.K {
+		case KAcq, KRel, KRd, KBlock, KCallParam:
+			ok = false
+		case KWr:
+			if x.Ref.Root != nil {
+				ok = false
+			}
+		}
+	})
+	return ok
 }
 
 func (s *Stmt) hasLockOp() bool {
@@ -167,6 +186,26 @@ func (s *Stmt) subst(f func(Ref) Ref, g func(*Stmt) *Stmt) *Stmt {
 	return &c
 }
 
+// stripMarks removes the translator-internal markers
+func (s *Stmt) stripMarks() *Stmt {
+	switch s.K {
+	case KMark:
+		return skip()
+	case KSeq:
+		return seq(s.A.stripMarks(), s.B.stripMarks())
+	case KChoice:
+		c := *s
+		c.A, c.B = s.A.stripMarks(), s.B.stripMarks()
+		if c.A.K == KSkip && c.B.K == KSkip {
+			return skip()
+		}
+		return &c
+	case KLoop:
+		return loop(s.A.stripMarks())
+	}
+	return s
+}
+
 func (s *Stmt) hasCallParam() bool {
 	found := false
 	s.walk(func(x *Stmt) {
@@ -182,7 +221,7 @@ func coqString(s string) string { return `"` + strings.ReplaceAll(s, `"`, `""`) 
 // Coq term of a statement
 func (s *Stmt) Coq(ind string) string {
 	switch s.K {
-	case KSkip:
+	case KSkip, KMark:
 		return "Skip"
 	case KReturn:
 		return "Return"
@@ -214,7 +253,7 @@ func (s *Stmt) Coq(ind string) string {
 // one-line rendering for reports and samples
 func (s *Stmt) Short() string {
 	switch s.K {
-	case KSkip:
+	case KSkip, KMark:
 		return "Skip"
 	case KReturn:
 		return "Return"
@@ -310,7 +349,7 @@ func (c *checker) add(kind, check, field, lock string, pos token.Position) {
 // returns (falls-through?, lockset)
 func (c *checker) run(ls lockset, s *Stmt) (bool, lockset) {
 	switch s.K {
-	case KSkip:
+	case KSkip, KMark:
 		return true, ls
 	case KSeq:
 		ok, l1 := c.run(ls, s.A)
@@ -367,6 +406,14 @@ func (c *checker) run(ls lockset, s *Stmt) (bool, lockset) {
 			kind := "field-not-in-guard-table"
 			if strings.Contains(s.Label, "after publication") {
 				kind = "write-after-publication"
+			}
+			if strings.HasPrefix(s.Label, "websocket connection (second writer): ") {
+				c.add("second-writer-on-connection", "well_locked", s.Ref.Text()+":connection", strings.TrimPrefix(s.Label, "websocket connection (second writer): "), s.Pos)
+				return true, ls
+			}
+			if strings.HasPrefix(s.Label, "handler effects (not all-or-nothing): ") {
+				c.add("handler-not-all-or-nothing", "well_locked", s.Ref.Text()+":effects", strings.TrimPrefix(s.Label, "handler effects (not all-or-nothing): "), s.Pos)
+				return true, ls
 			}
 			if strings.HasPrefix(s.Label, "buffer (shared across goroutines)") {
 				c.add("buffer-shared-across-goroutines", "well_locked", s.Ref.Text()+":buffer", strings.TrimPrefix(s.Label, "buffer (shared across goroutines): "), s.Pos)
